@@ -31,6 +31,78 @@ def str_default(node):
     return node.value if isinstance(node, ast.Constant) and isinstance(node.value, str) else None
 
 
+def check_full_codes(prog, check, rule='C18.R4'):
+    """the full code of every sector is (re)computed by one function: country prefix iff the model has several
+    countries, for every sector on every call (a code kept from an earlier call is stale once a country is added)"""
+    # ---- R4 ----------------------------------------------------------------------------------------
+    writers = []
+    for f in prog.all_functions():
+        for n in ast.walk(f.node):
+            if isinstance(n, ast.Assign) and isinstance(n.targets[0], ast.Attribute) and n.targets[0].attr == 'FullCode':
+                if isinstance(n.value, ast.Constant) and n.value.value == '':
+                    continue
+                writers.append((f, n))
+    fs = {f.key for f, n in writers}
+    check.ob(rule, 'full-code::single-writer', len(fs) == 1, writers[0][0].where if writers else 'sfc_models/models.py',
+             'FullCode is assigned in one function (%s)' % sorted(fs) if len(fs) == 1 else 'FullCode is assigned in %s' % sorted(fs),
+             'embedding an economy: every sector must follow the same prefix rule')
+    if len(fs) == 1:
+        f = writers[0][0]
+        check.saw(f)
+        from ..dataflow import single_assign_subst
+        sub = single_assign_subst(f.node)
+        prefixed = [n for ff, n in writers if isinstance(n.value, ast.BinOp)]
+        plain = [n for ff, n in writers if not isinstance(n.value, ast.BinOp)]
+        from .. import cfg as cfgmod_
+        from ..cfg import atomic_facts
+        from ..dataflow import resolve_expr
+        gfc = cfgmod_.build(f)
+
+        def several_countries(node_ast):
+            """True / False when reaching the store implies `more than one country` / `at most one`, None otherwise"""
+            res = None
+            for test, outcome in gfc.conditions_at(gfc.node_of(node_ast)):
+                for _, v, e in atomic_facts(test, outcome):
+                    e = resolve_expr(e, sub)
+                    if isinstance(e, ast.Compare) and len(e.ops) == 1:
+                        l, r = linform(e.left, sub), linform(e.comparators[0], sub)
+                        if l is None or r is None:
+                            continue
+                        ln = [k for k in l if k.startswith('len(') and 'CountryList' in k]
+                        if ln and not (set(r) - {''}) and not (set(l) - {ln[0], ''}) and l[ln[0]] == 1 and not l.get('', 0):
+                            c = r.get('', 0)
+                            op = e.ops[0]
+                            if (isinstance(op, ast.Gt) and c == 1) or (isinstance(op, ast.GtE) and c == 2) or (isinstance(op, ast.NotEq) and False):
+                                res = v
+                            elif (isinstance(op, ast.LtE) and c == 1) or (isinstance(op, ast.Lt) and c == 2):
+                                res = not v
+            return res
+        ok = bool(prefixed) and bool(plain)
+        shape = all(re.match(r"^(\w+)\.Code\+'_'\+(\w+)\.Code$", unparse(pn.value).replace(' ', '')) is not None for pn in prefixed)
+        cond_ok = all(several_countries(pn) is True for pn in prefixed) and all(several_countries(pl) is False for pl in plain)
+        plain_ok = all(unparse(pl.value).endswith('.Code') and isinstance(pl.value, ast.Attribute) for pl in plain)
+        ok = ok and shape and cond_ok and plain_ok
+        check.ob(rule, 'full-code::prefix-iff-several-countries', ok, f.where,
+                 "FullCode = country.Code + '_' + sector.Code iff len(CountryList) > 1, else sector.Code" if ok else
+                 'the prefix rule is not `country code prefix iff more than one country`', 'one-country vs two-country models')
+    # ---- R5 ----------------------------------------------------------------------------------------
+        # every sector is given its code on every call
+        ok_every = False
+        stores_ = [gfc.node_of(n_) for ff_, n_ in writers]
+        inner = None
+        for l_ in [x for x in ast.walk(f.node) if isinstance(x, ast.For)]:
+            if any(n_ in list(ast.walk(l_)) for ff_, n_ in writers) and (inner is None or l_ in list(ast.walk(inner))):
+                inner = l_
+        if inner is not None:
+            hdr_ = [h_ for h_ in gfc.nodes if h_.kind == 'for' and h_.stmt is inner][0]
+            first_ = [b_ for b_, lab_ in gfc.succ[hdr_.id] if lab_ is True]
+            ok_every = bool(first_) and all(gfc.nodes[b_] in stores_ or gfc.must_pass(b_, hdr_, stores_) for b_ in first_)
+        check.ob(rule, 'full-code::assigned-for-every-sector', ok_every, f.where,
+                 'every pass over a sector assigns its full code afresh' if ok_every else
+                 'a sector can be skipped (its full code is left as it was): a code computed before the last country was added is stale',
+                 'codes generated (LogInfo, GUI) while the model had one country, a second country added afterwards')
+
+
 def run(prog, check):
     check.explanation = EXPLANATION
     check.not_decided = 'equality of the renamed / embedded / stand-alone solutions'
@@ -154,57 +226,7 @@ def run(prog, check):
                              'lookup by code within the own %s' % r.args[0] if ok else 'lookup by code in scope `%s`' % r.args[0],
                              'another economy in the model with the same sector code')
     # ---- R4 ----------------------------------------------------------------------------------------
-    writers = []
-    for f in prog.all_functions():
-        for n in ast.walk(f.node):
-            if isinstance(n, ast.Assign) and isinstance(n.targets[0], ast.Attribute) and n.targets[0].attr == 'FullCode':
-                if isinstance(n.value, ast.Constant) and n.value.value == '':
-                    continue
-                writers.append((f, n))
-    fs = {f.key for f, n in writers}
-    check.ob('C18.R4', 'full-code::single-writer', len(fs) == 1, writers[0][0].where if writers else 'sfc_models/models.py',
-             'FullCode is assigned in one function (%s)' % sorted(fs) if len(fs) == 1 else 'FullCode is assigned in %s' % sorted(fs),
-             'embedding an economy: every sector must follow the same prefix rule')
-    if len(fs) == 1:
-        f = writers[0][0]
-        check.saw(f)
-        from ..dataflow import single_assign_subst
-        sub = single_assign_subst(f.node)
-        prefixed = [n for ff, n in writers if isinstance(n.value, ast.BinOp)]
-        plain = [n for ff, n in writers if not isinstance(n.value, ast.BinOp)]
-        from .. import cfg as cfgmod_
-        from ..cfg import atomic_facts
-        from ..dataflow import resolve_expr
-        gfc = cfgmod_.build(f)
-
-        def several_countries(node_ast):
-            """True / False when reaching the store implies `more than one country` / `at most one`, None otherwise"""
-            res = None
-            for test, outcome in gfc.conditions_at(gfc.node_of(node_ast)):
-                for _, v, e in atomic_facts(test, outcome):
-                    e = resolve_expr(e, sub)
-                    if isinstance(e, ast.Compare) and len(e.ops) == 1:
-                        l, r = linform(e.left, sub), linform(e.comparators[0], sub)
-                        if l is None or r is None:
-                            continue
-                        ln = [k for k in l if k.startswith('len(') and 'CountryList' in k]
-                        if ln and not (set(r) - {''}) and not (set(l) - {ln[0], ''}) and l[ln[0]] == 1 and not l.get('', 0):
-                            c = r.get('', 0)
-                            op = e.ops[0]
-                            if (isinstance(op, ast.Gt) and c == 1) or (isinstance(op, ast.GtE) and c == 2) or (isinstance(op, ast.NotEq) and False):
-                                res = v
-                            elif (isinstance(op, ast.LtE) and c == 1) or (isinstance(op, ast.Lt) and c == 2):
-                                res = not v
-            return res
-        ok = bool(prefixed) and bool(plain)
-        shape = all(re.match(r"^(\w+)\.Code\+'_'\+(\w+)\.Code$", unparse(pn.value).replace(' ', '')) is not None for pn in prefixed)
-        cond_ok = all(several_countries(pn) is True for pn in prefixed) and all(several_countries(pl) is False for pl in plain)
-        plain_ok = all(unparse(pl.value).endswith('.Code') and isinstance(pl.value, ast.Attribute) for pl in plain)
-        ok = ok and shape and cond_ok and plain_ok
-        check.ob('C18.R4', 'full-code::prefix-iff-several-countries', ok, f.where,
-                 "FullCode = country.Code + '_' + sector.Code iff len(CountryList) > 1, else sector.Code" if ok else
-                 'the prefix rule is not `country code prefix iff more than one country`', 'one-country vs two-country models')
-    # ---- R5 ----------------------------------------------------------------------------------------
+    check_full_codes(prog, check)
     n5 = 0
     for rel, m in sorted(prog.modules.items()):
         if '/gl_book/' not in rel.replace('\\', '/'):
